@@ -150,6 +150,27 @@ Example C07_early_break_nontrivial :
 Proof. exact early_break_example. Qed.
 Print Assumptions C07_early_break_nontrivial.
 
+(* every call of a listing carries the fields and options of the request the caller passed; the caller's request is
+   not an output of iteration (the pager works on its own copy: the T1 pin on __init__), so after draining a pager a
+   second listing with the same request starts from the caller's own page_token and fields *)
+Theorem C07_calls_keep_original_request :
+  forall (item attrs fields opts : Type) (is_async : bool) (c : call fields opts)
+         (p0 : page item attrs) script (o : outcome item attrs fields opts),
+  iterate is_async c p0 script = Some o ->
+  hd_error (o_calls o) = Some c /\
+  Forall (fun x => c_fields x = c_fields c /\ c_opts x = c_opts c) (o_calls o).
+Proof. exact calls_keep_original_request. Qed.
+Print Assumptions C07_calls_keep_original_request.
+
+Theorem C07_caller_request_unchanged :
+  forall (item attrs fields opts : Type) (is_async : bool) (r : call fields opts)
+         (p0 : page item attrs) script (q0 : page item attrs) script2 (o2 : outcome item attrs fields opts),
+  snd (list_and_drain is_async r p0 script) = r /\
+  (fst (list_and_drain is_async (snd (list_and_drain is_async r p0 script)) q0 script2) = Some o2 ->
+   hd_error (o_calls o2) = Some r /\ Forall (fun x => c_fields x = c_fields r /\ c_opts x = c_opts r) (o_calls o2)).
+Proof. exact caller_request_unchanged. Qed.
+Print Assumptions C07_caller_request_unchanged.
+
 Theorem C07_sync_async_agree :
   forall (item attrs fields opts : Type) (c : call fields opts) (p0 : page item attrs) script,
   iterate true c p0 script = iterate false c p0 script.
